@@ -28,6 +28,13 @@ Definition run_cmd (cwd : option dir) (b : list entry) (s : st) : st :=
   {| current_dir := current_dir s; cmd := None; runs := runs s ++ [(cwd, b)];
      failed := failed s || negb (ok (length (runs s))) |}.
 
+(* a command line that holds no path is not run (005b5df) *)
+Definition run_batch (cwd : option dir) (b : list entry) (s : st) : st :=
+  match b with
+  | [] => {| current_dir := current_dir s; cmd := None; runs := runs s; failed := failed s |}
+  | _ => run_cmd cwd b s
+  end.
+
 Definition fits (e : entry) (remaining : N) : bool := esingle e && (ecost e <=? remaining)%N.
 
 (* MultiExecMatcher::matches *)
@@ -36,17 +43,17 @@ Definition matches (e : entry) (s : st) : st :=
   if fits e rem then
     {| current_dir := current_dir s; cmd := Some (b ++ [e], (rem - ecost e)%N); runs := runs s; failed := failed s |}
   else
-    let s1 := run_cmd (if execdir then eparent e else None) b s in
+    let s1 := run_batch (if execdir then eparent e else None) b s in
     if fits e budget then
       {| current_dir := current_dir s1; cmd := Some ([e], (budget - ecost e)%N); runs := runs s1; failed := failed s1 |}
-    else  (* "Cannot fit a single argument": dropped, exit status 1, an empty command stays pending *)
+    else  (* "Cannot fit a single argument": dropped, exit status 1, an empty command stays pending (and is never run) *)
       {| current_dir := current_dir s1; cmd := Some ([], budget); runs := runs s1; failed := true |}.
 
 (* finished_dir(dir) for -execdir, finished() for -exec *)
 Definition finished_dir (d : dir) (s : st) : st :=
-  if execdir then match cmd s with Some (b, _) => run_cmd (Some d) b s | None => s end else s.
+  if execdir then match cmd s with Some (b, _) => run_batch (Some d) b s | None => s end else s.
 Definition finished (s : st) : st :=
-  if execdir then s else match cmd s with Some (b, _) => run_cmd None b s | None => s end.
+  if execdir then s else match cmd s with Some (b, _) => run_batch None b s | None => s end.
 
 (* one iteration of process_dir's loop *)
 Definition step (s : st) (e : entry) : st :=
